@@ -34,23 +34,41 @@ ROUTING = {
 
 # ---- validator roles, recognised by what the function does (P12), not by its name
 def role_of(prog, key, _cache={}):
-    if key in _cache:
-        return _cache[key]
+    ck = (id(prog), key)
+    if ck in _cache:
+        return _cache[ck]
     b = prog.body(key)
     r = None
+    _cache[ck] = None  # recursion guard
     if b is not None and b.kind == "fn":
-        names = [call_name(t) or "" for _, t in b.calls()]
+        own = list(b.calls())
+        for k2 in prog.bodies:
+            if k2.startswith(key + "::{closure"):
+                own += list(prog.bodies[k2].calls())
+        names = [call_name(t) or "" for _, t in own]
+        lits = set()
+        for k2 in [key] + [k for k in prog.bodies if k.startswith(key + "::{closure")]:
+            for blk in prog.bodies[k2].blocks:
+                for st in blk["stmts"]:
+                    u = (st.get("rv") or {}).get("use")
+                    if isinstance(u, dict) and "k" in u and "str" in u["k"]:
+                        lits.add(u["k"]["str"])
+                if blk["term"]["k"] == "call":
+                    for a_ in blk["term"]["args"]:
+                        if "k" in a_ and "str" in a_["k"]:
+                            lits.add(a_["k"]["str"])
+        calls_addr = any(t.get("rkey") and t.get("rkey") != key and prog.body(t["rkey"]) is not None and role_of(prog, t["rkey"]) == "address" for _, t in own)
         if any(n.startswith("bech32::decode") for n in names) and b.nargs == 2:
             r = "address"
-        elif any(shared._body_of_call(prog, ("call", n, (), ("meta", None, t.get("rkey")))) is not None and role_of(prog, t.get("rkey")) == "address" for (_, t), n in zip(b.calls(), names)) and any(n.startswith("std::collections::HashSet::") for n in names):
+        elif calls_addr and any(n.startswith("std::collections::HashSet::") for n in names) and b.nargs == 2:
             r = "addresses"
-        elif any(n.endswith("is_ascii_alphabetic") for n in names) or any(role_closure(prog, k) for k in prog.bodies if k.startswith(key + "::{closure")):
+        elif any(n.endswith("is_ascii_alphabetic") for n in names):
             r = "denom"
-        elif any(n == "core::str::starts_with" for n in names) and any(n == "core::str::strip_prefix" for n in names) and b.nargs == 1 and not any(n == "core::str::parse" for n in names):
+        elif "ibc/" in lits and b.nargs == 1:
             r = "ibc_denom"
         elif any(n.endswith("is_ascii_lowercase") for n in names) and any(n.endswith("is_ascii_uppercase") for n in names):
             r = "prefix"
-    _cache[key] = r
+    _cache[ck] = r
     return r
 
 
@@ -129,6 +147,23 @@ def run(R, env):
                     if res is not None and res[0] == "call":
                         cb = shared._body_of_call(prog, res)
                         good = cb is not None and role_of(prog, cb.key) == "address" and res[2][0] == ("elem",) and pfx_ok(res[2][1])
+                if not good:
+                    # a helper / match spelling: the value is None when the input is None, else
+                    # Some(validated address of the unwrapped input with the prefix)
+                    from engine.analysis import forms
+                    for vf in forms(prog, v, 2):
+                        alts_ = vf[1] if vf[0] == "phi" else (vf,)
+                        somes = [a_ for a_ in alts_ if a_[0] == "agg" and a_[2] == "Some"]
+                        nones = [a_ for a_ in alts_ if a_[0] == "agg" and a_[2] == "None"]
+                        if somes and len(somes) + len(nones) == len(alts_):
+                            okall = True
+                            for sm in somes:
+                                a2 = validated(prog, sm[3][0][2], "address")
+                                if not (a2 is not None and a2[0][0] == "payload" and src(a2[0][1]) and pfx_ok(a2[1])):
+                                    okall = False
+                            if okall:
+                                good = True
+                                break
             elif role == "channel":
                 good = src(v)
                 channel_checks(R, prog, b, "C14.R2")
@@ -140,42 +175,50 @@ def run(R, env):
     R.floor("C14.R2", "address validators", len(addr_fns), 1)
     for k in addr_fns:
         shared.address_validator_shape(R, prog, k, "C14.R2")
+    from engine.analysis import success_exits, inline_walk
+    p1 = lambda t: t[0] == "param" and t[1] == 1
     for k in [k for k in prog.bodies if prog.bodies[k].crate == CRATE and role_of(prog, k) == "denom"]:
         c = Ctx(prog.body(k))
-        ln = lambda t: t[0] == "call" and t[1] in ("std::string::String::len", "core::str::len") and t[2][0][0] == "param"
-        out, n = ordering_outcomes(c, ln, lambda y: const_int(y) == 3)
-        R.ob("C14.R2", "denom:length>3", n >= 1 and out == {"<": False, "=": False, ">": True}, "per ordering of (len ? 3) success reachable: %s" % out, fn=k)
-        al = lambda t: t[0] == "call" and t[1].endswith("Iterator::all") and any(role_closure(prog, s_[1]) for s_ in subterms(t) if s_[0] == "closure")
-        rem, n = bool_world_edges(c, al, False)
-        w = c.with_removed(rem).settle()
-        R.ob("C14.R2", "denom:alphabetic", n >= 1 and not any(e["kind"] != "err" for e in exits(w)), "a denom with non-alphabetic characters is accepted", fn=k)
+        # accepted lengths: exactly those > 3, whatever the spelling (`<= 3`, `< 4`, a range test ..)
+        out = len_outcomes(prog, c, p1, extra=(3, 4))
+        bad = sorted(v for v, okv in out.items() if okv != (v > 3))
+        R.worlds += len(out)
+        R.ob("C14.R2", "denom:length>3", bool(out) and not bad, "a denom is accepted / rejected contrary to `len > 3` for the lengths %s (per length, success reachable: %s)" % (bad, {v: out[v] for v in bad}), fn=k)
+        w, quant = charclass_world(prog, c, p1, "is_ascii_alphabetic", False)
+        n = sum(1 for _, atom in c.atoms() for s_ in subterms(atom[1]) if quant(s_) is not None)
+        w = w.settle()
+        R.ob("C14.R2", "denom:alphabetic", n >= 1 and not success_exits(w), "a denom with non-alphabetic characters is accepted", fn=k)
     for k in [k for k in prog.bodies if prog.bodies[k].crate == CRATE and role_of(prog, k) == "ibc_denom"]:
         c = Ctx(prog.body(k))
-        sw = lambda t: t[0] == "call" and t[1] == "core::str::starts_with" and t[2][1] == ("const", "str", "ibc/")
-        rem, n = bool_world_edges(c, sw, False)
-        w = c.with_removed(rem).settle()
-        R.ob("C14.R2", "ibc-denom:prefix", n >= 1 and not any(e["kind"] != "err" for e in exits(w)), "an ibc denom without the ibc/ prefix is accepted", fn=k)
-        ln = lambda t: t[0] == "call" and t[1] in ("core::str::len",) and any(s_[0] == "call" and s_[1] == "core::str::strip_prefix" and s_[2][1] == ("const", "str", "ibc/") for s_ in subterms(t))
-        out, n = ordering_outcomes(c, ln, lambda y: const_int(y) == 64)
-        R.ob("C14.R2", "ibc-denom:64-characters", n >= 1 and out == {"<": False, "=": True, ">": False}, "per ordering of (len(after ibc/) ? 64) success reachable: %s" % out, fn=k)
+        n = prefix_tests(prog, c, p1, "ibc/")
+        w = prefix_world(c, p1, "ibc/", False).settle()
+        R.ob("C14.R2", "ibc-denom:prefix", n >= 1 and not success_exits(w), "an ibc denom without the ibc/ prefix is accepted", fn=k)
+        # with the prefix present: accepted exactly when 64 characters follow it
+        cw = prefix_world(c, p1, "ibc/", True)
+        out = len_outcomes(prog, cw, rest_after(p1, "ibc/"), extra=(64,))
+        bad = sorted(v for v, okv in out.items() if okv != (v == 64))
+        R.worlds += len(out)
+        R.ob("C14.R2", "ibc-denom:64-characters", bool(out) and not bad, "an ibc denom is accepted / rejected contrary to `64 characters after ibc/` for the lengths %s" % bad, fn=k)
     for k in [k for k in prog.bodies if prog.bodies[k].crate == CRATE and role_of(prog, k) == "addresses"]:
         c = Ctx(prog.body(k))
-        dup = lambda t: t[0] == "call" and t[1] == "std::collections::HashSet::contains"
-        pushes = [bi for bi, t, a in call_sites(c, lambda nm: nm == "std::vec::Vec::push")]
-        cuts = set()
-        n = 0
-        for bi, atom in c.atoms():
-            if atom[0] == "bool" and dup(atom[1]):
-                n += 1
-                for tg in atom[2][False]:
-                    cuts.add((bi, tg))
-        # with the not-a-duplicate edge cut, push is unreachable (duplicate test precedes acceptance)
-        reach = c.with_removed(cuts).settle().T.reach
-        R.ob("C14.R2", "addresses:duplicate-test-precedes-acceptance", n >= 1 and bool(pushes) and all(p not in reach for p in pushes), "an address can be pushed to the validated list without the duplicate test", fn=k)
-        # each element validated with the list's prefix
-        vc = [a for bi, t, a in call_sites(c, lambda nm: True) if prog.body(t.get("rkey") or "") is not None and role_of(prog, t.get("rkey")) == "address"]
-        good = len(vc) == 1 and vc[0][1][0] == "param" and vc[0][1][1] == 2 and vc[0][0][0] == "payload" and shared.unwrap_payload(vc[0][0])[1].endswith("Iterator::next")
-        R.ob("C14.R2", "addresses:each-element-validated-with-the-prefix", good, "list elements are not validated one by one with the prefix argument", fn=k)
+        # the context in which one element is validated: the function body (loop) or the closure given to map()
+        elem_ctxs = []
+        for c_, path_ in inline_walk(prog, c, 1):
+            if c_.body.kind == "closure" or not path_:
+                vcs = [(bi_, t_, a_) for bi_, t_, a_ in call_sites(c_, lambda nm: True) if prog.body(t_.get("rkey") or "") is not None and role_of(prog, t_.get("rkey")) == "address"]
+                if vcs:
+                    elem_ctxs.append((c_, vcs))
+        R.ob("C14.R2", "addresses:element-validation-site", len(elem_ctxs) == 1 and len(elem_ctxs[0][1]) == 1, "found %d contexts validating list elements" % len(elem_ctxs), fn=k)
+        for ec, vcs in elem_ctxs[:1]:
+            # world: the element was seen before — `seen.contains(x)` is true, `seen.insert(x)` answers false
+            dupw = ec.assume((lambda t: t[0] == "call" and t[1] == "std::collections::HashSet::contains", True), (lambda t: t[0] == "call" and t[1] == "std::collections::HashSet::insert", False)).settle()
+            n = sum(1 for _, atom in ec.atoms() for s_ in subterms(atom[1]) if s_[0] == "call" and s_[1] in ("std::collections::HashSet::contains", "std::collections::HashSet::insert"))
+            pushes = [bi_ for bi_, t_, a_ in call_sites(dupw, lambda nm: nm == "std::vec::Vec::push")]
+            accepted = bool(pushes) or (ec.body.kind == "closure" and bool(success_exits(dupw)))
+            R.ob("C14.R2", "addresses:duplicate-test-precedes-acceptance", n >= 1 and not accepted, "a duplicate address can be accepted into the validated list", fn=k)
+            a_ = vcs[0][2]
+            good = len(a_) == 2 and a_[1][0] == "param" and a_[1][1] == 2 and a_[0][0] == "payload" and shared.unwrap_payload(a_[0])[1].endswith("Iterator::next")
+            R.ob("C14.R2", "addresses:each-element-validated-with-the-prefix", good, "list elements are not validated one by one with the prefix argument: validate(%s)" % ", ".join(fmt(x)[:60] for x in a_), fn=k)
     # ------------------------------------------------------------ R3 sinks
     who = {}
     for site, c in sites.items():
@@ -327,30 +370,29 @@ def run(R, env):
 
 
 def channel_checks(R, prog, b, rule):
-    """the function constructing ProtocolChainConfig accepts its ibc_channel_id only behind
-    starts_with("channel-") and parse::<u64>(rest).is_ok()"""
+    """the function constructing ProtocolChainConfig accepts its ibc_channel_id only if it starts
+    with "channel-" and the WHOLE remainder parses as u64 — tested in the function itself or in a
+    boolean helper it calls; decided in the worlds `no such prefix` and `remainder does not parse`."""
+    from engine.analysis import success_exits, inline_walk
     c = Ctx(b)
     src = lambda x: x[0] == "field" and x[2] == "ibc_channel_id" and x[1][0] == "param" and x[1][1] == 1
-    tests = []
-    for abi, atom in c.atoms():
-        if atom[0] != "bool":
-            continue
-        for s_ in subterms(atom[1]):
-            if s_[0] == "call" and s_[1] == "core::str::starts_with" and src(s_[2][0]) and s_[2][1] == ("const", "str", "channel-"):
-                tests.append("starts_with")
-            if s_[0] == "call" and s_[1] == "core::str::parse" and any(x[0] == "call" and x[1] == "core::str::strip_prefix" and src(x[2][0]) and x[2][1] == ("const", "str", "channel-") for x in subterms(s_)) and "u64" in (s_[3][1] if len(s_) > 3 and s_[3] else ""):
-                tests.append("parse-u64")
-    sw = lambda x: x[0] == "call" and x[1] == "core::str::starts_with" and src(x[2][0]) and x[2][1] == ("const", "str", "channel-")
-    rem, n = bool_world_edges(c, sw, False)
-    w = c.with_removed(rem).settle()
-    ok_sw = n >= 1 and not any(e["kind"] != "err" for e in exits(w))
-    # the WHOLE remainder after "channel-" is what is parsed (no split / trim in between)
-    rest = lambda y: y[0] == "payload" and shared.unwrap_payload(y)[0] == "call" and shared.unwrap_payload(y)[1] == "core::str::strip_prefix" and src(shared.unwrap_payload(y)[2][0]) and shared.unwrap_payload(y)[2][1] == ("const", "str", "channel-")
-    pa = lambda x: x[0] == "call" and x[1] == "std::result::Result::is_ok" and x[2][0][0] == "call" and x[2][0][1] == "core::str::parse" and rest(x[2][0][2][0]) and "u64" in (x[2][0][3][1] if len(x[2][0]) > 3 and x[2][0][3] else "")
-    tests = [t_ for t_ in tests if t_ != "parse-u64"] + (["parse-u64"] if any(pa(s_) for _, atom in c.atoms() for s_ in subterms(atom[1])) else [])
-    w = c.assume_bool(pa, False).settle()
-    ok_pa = not any(e["kind"] != "err" for e in exits(w))
+    LIT = "channel-"
+    n_pfx = prefix_tests(prog, c, src, LIT)
+    w = prefix_world(c, src, LIT, False).settle()
+    ok_sw = n_pfx >= 1 and not success_exits(w)
+    rest = rest_after(src, LIT)
+    is_parse = lambda y: y[0] == "call" and y[1] == "core::str::parse" and y[2] and rest(y[2][0]) and "u64" in (y[3][1] if len(y) > 3 and y[3] else "")
+    pa = lambda x: x[0] == "call" and x[1] == "std::result::Result::is_ok" and x[2] and is_parse(x[2][0])
+    n_pa = 0
+    for c_, path_ in inline_walk(prog, c, 2):
+        for _, atom in c_.atoms():
+            n_pa += sum(1 for s_ in subterms(atom[1]) if is_parse(s_))
+        n_pa += sum(1 for s_ in subterms(c_.T.return_term()) if is_parse(s_)) if path_ else 0
+    # the prefix is there, the remainder is not a number: is_ok() false, a match on the parse result takes Err
+    w = prefix_world(c, src, LIT, True).assume((pa, False), (is_parse, ("ok", False))).settle()
+    ok_pa = not success_exits(w)
     R.worlds += 2
-    R.ob(rule, "channel:starts-with-channel-", ok_sw, "a channel id that does not start with \"channel-\" is accepted (tests: %s)" % sorted(set(tests)), fn=b.key)
-    R.ob(rule, "channel:numeric-suffix", ok_pa and "parse-u64" in tests, "a channel id whose suffix is not a u64 is accepted (tests: %s)" % sorted(set(tests)), fn=b.key)
-    return ok_sw and ok_pa and "parse-u64" in tests
+    tests = (["prefix"] if n_pfx else []) + (["parse-u64"] if n_pa else [])
+    R.ob(rule, "channel:starts-with-channel-", ok_sw, "a channel id that does not start with \"channel-\" is accepted (tests: %s)" % tests, fn=b.key)
+    R.ob(rule, "channel:numeric-suffix", ok_pa and n_pa >= 1, "a channel id whose suffix is not a u64 is accepted (tests: %s)" % tests, fn=b.key)
+    return ok_sw and ok_pa and n_pa >= 1
